@@ -1,7 +1,7 @@
 (* Properties/C10.v — structural marginalisation equals marginal inference. *)
 From Coq Require Import List Arith ZArith Ring Bool.
 From DV Require Import Model.Core Model.Clt Model.Leaves Model.Check Model.Marg
-  Proofs.CoreFacts Proofs.HeapFacts Proofs.ToPcFacts Proofs.MargFacts Proofs.MargClt.
+  Proofs.CoreFacts Proofs.HeapFacts Proofs.ToPcFacts Proofs.MargFacts Proofs.MargClt Proofs.MargValid.
 Import ListNotations.
 
 Section C10.
@@ -51,6 +51,30 @@ Section C10.
       (forall r, rowok r -> binary_on (vars T (clt_tree T t0 c)) r) ->
       clt_handler_ok T t0 t1 tadd tmul K rowok c.
   Proof. exact (clt_handler_discharged T t0 t1 tadd tmul SRth dom). Qed.
+
+  (* the result is a VALID circuit (children first, smooth sums, decomposable products) whose root scope is
+     exactly the kept part of the original root scope — for every valid, normalised DAG table, including the
+     sub-circuits spliced in for partly marginalised Chow-Liu leaves (premise node_pre_v, discharged below) *)
+  Theorem C10_valid : forall (K : list nat) (rowok : row -> Prop) (t : tbl),
+      valid T t0 tadd dom (leaf T) lval t -> normalised T t0 t1 tadd (leaf T) lval t ->
+      Forall (node_pre T t0 t1 tadd tmul K rowok) t -> Forall (node_pre_v T t0 t1 tadd tmul dom K) t -> 0 < length t ->
+      forall res root, marginalize T t0 t1 tadd tmul K t = Some (res, root) ->
+      valid T t0 tadd dom (leaf T) lval res /\ root < length res /\
+      forall v, In v (scope_of T (leaf T) res root) <-> In v (scope_of T (leaf T) t (length t - 1)) /\ In v K.
+  Proof. exact (marginalize_valid T t0 t1 tadd tmul SRth dom). Qed.
+
+  (* ... hence, the guard having accepted the kept set, a circuit over exactly the kept variables *)
+  Theorem C10_scope_is_keep : forall (K : list nat) (rowok : row -> Prop) (t : tbl),
+      valid T t0 tadd dom (leaf T) lval t -> normalised T t0 t1 tadd (leaf T) lval t ->
+      Forall (node_pre T t0 t1 tadd tmul K rowok) t -> Forall (node_pre_v T t0 t1 tadd tmul dom K) t -> 0 < length t ->
+      forall res root, marginalize T t0 t1 tadd tmul K t = Some (res, root) ->
+      forall v, In v (scope_of T (leaf T) res root) <-> In v K.
+  Proof. exact (marginalize_scope_is_keep T t0 t1 tadd tmul SRth dom). Qed.
+
+  (* the validity premise about Chow-Liu leaves holds for every well-formed leaf *)
+  Theorem C10_clt_handler_valid : forall (K : list nat) (c : clt T),
+      clt_wf T t0 t1 tadd dom c -> clt_handler_valid T t0 t1 tadd tmul dom K c.
+  Proof. intros K c. exact (clt_handler_valid_discharged T t0 t1 tadd tmul SRth dom K (fun _ => True) c). Qed.
 End C10.
 
 (* keep sets: empty, duplicated or out-of-scope sets are rejected, all others accepted *)
@@ -76,3 +100,6 @@ Print Assumptions C10_defined.
 Print Assumptions C10_pass_invariant.
 Print Assumptions C10_guard.
 Print Assumptions C10_clt_handler.
+Print Assumptions C10_valid.
+Print Assumptions C10_scope_is_keep.
+Print Assumptions C10_clt_handler_valid.
